@@ -76,7 +76,7 @@ func (h *DSRHandler) DoExecuteSync(cc CallContext) (error, *codec.TypedObj, modu
 	}
 	dsr1, dsr2 := dsds[0], dsds[1]
 	if !dsr1.IsConflictWith(dsr2) {
-		return scoreresult.InvalidParameterError.Wrap(err, "DoubleSignDataDoesntConflict"), nil, nil
+		return scoreresult.InvalidParameterError.New("DoubleSignDataDoesntConflict"), nil, nil
 	}
 
 	if dsr1.Height() > cc.BlockHeight() {
